@@ -10,6 +10,7 @@ import (
 	"io"
 	"reflect"
 	"strings"
+	"time"
 
 	"mellium.im/xmlstream"
 	"mellium.im/xmpp"
@@ -56,8 +57,18 @@ type mWire struct {
 }
 
 type mAlt struct {
-	Inv  []mInv  `json:"inv"`
-	Wire []mWire `json:"wire"`
+	Inv   []mInv  `json:"inv"`
+	Wire  []mWire `json:"wire"`
+	Wire2 []mWire `json:"wire2,omitempty"` // nested routing: what the multiplexer wrote for the inner stanza
+}
+
+// mNest: the handler of invocation number At of the vector's stanza routes stanza El through the SAME
+// multiplexer (own reader, own encoder), before ("pre") or after ("post") it reads what it was handed.
+type mNest struct {
+	At    int    `json:"at"`
+	When  string `json:"when"`
+	El    mEl    `json:"el"`
+	Progs []int  `json:"progs"`
 }
 
 type mVec struct {
@@ -67,6 +78,8 @@ type mVec struct {
 	Extra []int  `json:"extra"` // further patterns of the universe by index
 	El    mEl    `json:"el"`
 	Progs []int  `json:"progs"`
+	Nest  *mNest `json:"nest,omitempty"`
+	Ctor  string `json:"ctor,omitempty"` // replay of a recorded case: the construction to use
 	Alts  []mAlt `json:"alts"`
 }
 
@@ -82,8 +95,49 @@ type mReg struct {
 }
 
 type mUniverse struct {
-	Pats   []mPat  `json:"pats"`
-	Others [][]int `json:"others"`
+	Pats   []mPat   `json:"pats"`
+	Others [][]int  `json:"others"`
+	Ctors  []string `json:"ctors"` // ways of making the multiplexer
+}
+
+// construct makes the multiplexer of a vector in one of the ways the package supports: "new" mux.New(ns,
+// options...), "zero" the options applied to the zero value (the pattern tables are allocated lazily for that),
+// "late" the options applied to the result of mux.New(ns), "afteruse" half of them given to New, an element
+// routed, then the rest applied. What is looked up afterwards must not depend on it.
+func construct(ctor, ns string, opts []mux.Option) *mux.ServeMux {
+	switch ctor {
+	case "zero":
+		m := &mux.ServeMux{}
+		for _, o := range opts {
+			o(m)
+		}
+		return m
+	case "late":
+		m := mux.New(ns)
+		for _, o := range opts {
+			o(m)
+		}
+		return m
+	case "afteruse":
+		h := len(opts) / 2
+		m := mux.New(ns, opts[:h]...)
+		// first use: an element nothing is registered for (and a stanza: the routers have run once)
+		for _, probe := range []string{`<probe xmlns="urn:verif:probe"/>`, `<presence xmlns="` + ns + `" type="probe"><probe xmlns="urn:verif:probe"/></presence>`} {
+			d := xml.NewDecoder(strings.NewReader(probe))
+			tok, _ := d.Token()
+			start := tok.(xml.StartElement)
+			var sink bytes.Buffer
+			_ = m.HandleXMPP(struct {
+				xml.TokenReader
+				xmlstream.Encoder
+			}{TokenReader: d, Encoder: recEncoder{xml.NewEncoder(&sink)}}, &start)
+		}
+		for _, o := range opts[h:] {
+			o(m)
+		}
+		return m
+	}
+	return mux.New(ns, opts...)
 }
 
 // symbol <-> namespace URI. "NS" is the stanza namespace of the multiplexer.
@@ -169,14 +223,60 @@ type muxRun struct {
 	progs []int
 	depth int
 	log   []mInv
+
+	// nested routing (see mNest)
+	m        *mux.ServeMux
+	nest     *mNest
+	inInner  bool // the inner stanza is being routed
+	n1, n2   int  // invocations so far for the outer / the inner stanza
+	entered  bool
+	wire2    []mWire
+	innerErr string
+	goStyle  bool // the inner stanza is routed by ANOTHER goroutine while the outer handler waits for it
+	stalled  bool
 }
 
-func (r *muxRun) prog() int {
-	i := len(r.log)
-	if i < len(r.progs) {
-		return r.progs[i]
+// begin counts an invocation for the stanza being routed and returns its number (1-based) and the number
+// of tokens its handler tries to read.
+func (r *muxRun) begin() (n, k int) {
+	if r.inInner {
+		r.n2++
+		if r.nest != nil && r.n2 <= len(r.nest.Progs) {
+			k = r.nest.Progs[r.n2-1]
+		}
+		return r.n2, k
 	}
-	return 0
+	r.n1++
+	if r.n1 <= len(r.progs) {
+		k = r.progs[r.n1-1]
+	}
+	return r.n1, k
+}
+
+// reenter routes the inner stanza through the multiplexer that is just running the calling handler.
+func (r *muxRun) reenter() {
+	r.entered, r.inInner = true, true
+	route := func() {
+		w, e, p := r.dispatch(r.m, r.nest.El)
+		r.wire2 = w
+		if p != "" {
+			e += " panic: " + p
+		}
+		r.innerErr = e
+	}
+	if r.goStyle {
+		done := make(chan struct{})
+		go func() { defer close(done); route() }()
+		select {
+		case <-done:
+		case <-time.After(30 * time.Second):
+			// (a multiplexer that serialises its callers would block here for ever: reported as a stall, not judged)
+			r.stalled = true
+		}
+	} else {
+		route()
+	}
+	r.inInner = false
 }
 
 // tokSym projects a token onto the spec's token alphabet; depth tracks the nesting so
@@ -186,7 +286,14 @@ func tokSym(tok xml.Token, depth *int, ns string) []string {
 	case xml.StartElement:
 		*depth++
 		if *depth == 1 {
-			return []string{"S", "", ""}
+			// the stanza's own start element: its identity is the id attribute
+			id := ""
+			for _, a := range t.Attr {
+				if a.Name.Local == "id" && a.Name.Space == "" {
+					id = a.Value
+				}
+			}
+			return []string{"S", "", id}
 		}
 		return []string{"s", nsSym(t.Name.Space, ns), t.Name.Local}
 	case xml.EndElement:
@@ -207,7 +314,16 @@ func tokSym(tok xml.Token, depth *int, ns string) []string {
 
 // readProg makes a message/presence handler read k tokens and records what it got.
 func (r *muxRun) readProg(h int, hid string, t xml.TokenReader) {
-	k := r.prog()
+	n, k := r.begin()
+	here := r.nest != nil && !r.inInner && !r.entered && n == r.nest.At
+	if here && r.nest.When == "pre" {
+		r.reenter()
+	}
+	defer func() {
+		if here && r.nest.When == "post" {
+			r.reenter()
+		}
+	}()
 	inv := mInv{H: h, Hid: hid, Seen: [][]string{}}
 	depth := 0
 	last := ""
@@ -254,11 +370,13 @@ func (r *muxRun) option(idx int, p mPat, hid string) mux.Option {
 	switch p.Kind {
 	case "top":
 		return mux.Handle(name, xmpp.HandlerFunc(func(t xmlstream.TokenReadEncoder, start *xml.StartElement) error {
+			r.begin()
 			r.log = append(r.log, mInv{H: idx, Hid: hid, Seen: [][]string{}})
 			return nil
 		}))
 	case "iq":
 		return mux.IQ(stanza.IQType(p.Type), name, mux.IQHandlerFunc(func(iq stanza.IQ, t xmlstream.TokenReadEncoder, start *xml.StartElement) error {
+			r.begin()
 			r.log = append(r.log, mInv{H: idx, Hid: hid, Seen: [][]string{}})
 			return nil
 		}))
@@ -489,12 +607,19 @@ func muxMain(args []string) {
 	// valid until the next read), from a token slice with the last token delivered together with io.EOF,
 	// and with character data inside the children
 	styles := []string{"decoder", "slice-eof", "texty", "formatted"}
-	var evals, mism, nontrivial, regs int
+	var evals, mism, nontrivial, regs, nested, enteredN, stalls int
 	samples := []interface{}{}
 	distinct := map[string]bool{}
 
+	goStyle := false
+	ctor := "new"
+	if len(u.Ctors) == 0 {
+		u.Ctors = []string{"new"}
+	}
+	ctorUsed := map[string]int{}
+	nline := 0
 	runVec := func(v mVec, ns string) (obs mAlt, retErr, panicked, regPanic string) {
-		r := &muxRun{ns: ns, progs: v.Progs}
+		r := &muxRun{ns: ns, progs: v.Progs, nest: v.Nest, goStyle: goStyle}
 		// table = own(kt, mask) + others(kt)
 		idx := []int{}
 		for i := 0; i < 9; i++ {
@@ -517,16 +642,30 @@ func muxMain(args []string) {
 					regPanic = fmt.Sprint(x)
 				}
 			}()
-			m = mux.New(ns, opts...)
+			m = construct(ctor, ns, opts)
 		}()
 		if regPanic != "" {
 			return
 		}
+		r.m = m
 		wire, re, pa := r.dispatch(m, v.El)
 		if r.log == nil {
 			r.log = []mInv{}
 		}
-		return mAlt{Inv: r.log, Wire: wire}, re, pa, ""
+		if r.innerErr != "" {
+			re += " | routing the inner stanza: " + r.innerErr
+		}
+		if r.stalled {
+			re += " | STALL: the nested routing did not return within 30s"
+			stalls++
+		}
+		if r.entered {
+			enteredN++
+			if r.wire2 == nil {
+				r.wire2 = []mWire{}
+			}
+		}
+		return mAlt{Inv: r.log, Wire: wire, Wire2: r.wire2}, re, pa, ""
 	}
 
 	for _, path := range args[3:] {
@@ -535,19 +674,37 @@ func muxMain(args []string) {
 			if err := json.Unmarshal(line, &v); err != nil {
 				die("vector: %v: %s", err, line)
 			}
+			nline++
+			nev := 0
 			for _, ns := range nss {
-				for _, style := range styles {
-					sliceEOF, texty, formatted = style == "slice-eof", style == "texty", style == "formatted"
+				for _, style := range append(styles, "decoder+goroutine") {
+					goStyle = strings.HasSuffix(style, "+goroutine")
+					if goStyle && v.Nest == nil {
+						continue
+					}
+					base := strings.TrimSuffix(style, "+goroutine")
+					sliceEOF, texty, formatted = base == "slice-eof", base == "texty", base == "formatted"
 					if formatted && v.El.Kind != "iq" {
 						continue
 					}
 					evals++
+					if v.Nest != nil {
+						nested++
+					}
+					// the construction rotates against namespace and reader style: every vector meets every construction
+					// (6 to 8 evaluations per vector), every (construction, namespace, style) triple recurs every 4 vectors
+					ctor = u.Ctors[(nline+nev)%len(u.Ctors)]
+					if v.Ctor != "" {
+						ctor = v.Ctor
+					}
+					nev++
+					ctorUsed[ctor]++
 					obs, retErr, panicked, regPanic := runVec(v, ns)
 					ok := regPanic == "" && panicked == "" && retErr == ""
 					if ok {
 						ok = false
 						for _, a := range v.Alts {
-							if invEqual(a.Inv, obs.Inv, false) && wireEqual(wireExpected(a.Wire), obs.Wire) {
+							if invEqual(a.Inv, obs.Inv, false) && wireEqual(wireExpected(a.Wire), obs.Wire) && wireEqual(wireExpected(a.Wire2), obs.Wire2) {
 								ok = true
 								break
 							}
@@ -556,7 +713,7 @@ func muxMain(args []string) {
 					if ok && evals%4 == 0 {
 						// determinism: a second run must give the same observation
 						obs2, _, _, _ := runVec(v, ns)
-						if !invEqual(obs.Inv, obs2.Inv, false) || !wireEqual(obs.Wire, obs2.Wire) {
+						if !invEqual(obs.Inv, obs2.Inv, false) || !wireEqual(obs.Wire, obs2.Wire) || !wireEqual(obs.Wire2, obs2.Wire2) {
 							ok = false
 							retErr = "non-deterministic: second run differs"
 						}
@@ -570,13 +727,19 @@ func muxMain(args []string) {
 					}
 					if !ok {
 						mism++
-						out.put(map[string]interface{}{"kind": "vector", "ns": ns, "style": style, "vector": v, "xml": renderEl(v.El, ns),
+						inner := ""
+						if v.Nest != nil {
+							inner = renderEl(v.Nest.El, ns)
+						}
+						v := v
+						v.Ctor = ctor
+						out.put(map[string]interface{}{"kind": "vector", "ns": ns, "style": style, "ctor": ctor, "vector": v, "xml": renderEl(v.El, ns), "inner_xml": inner,
 							"observed": obs, "error": retErr, "panic": panicked, "register_panic": regPanic})
 					} else if len(samples) < 3 && len(obs.Inv) >= 2 && evals%97 == 0 {
 						samples = append(samples, map[string]interface{}{"vector": v, "style": style, "xml": renderEl(v.El, ns), "observed": obs})
 					}
 				}
-				sliceEOF, texty, formatted = false, false, false
+				sliceEOF, texty, formatted, goStyle = false, false, false, false
 			}
 		})
 	}
@@ -600,10 +763,15 @@ func muxMain(args []string) {
 							setup = fmt.Sprint(x)
 						}
 					}()
+					// (made by New, or the zero value with the option applied to it, alternating)
+					first := []mux.Option{}
 					if v.Pre == 1 {
-						m = mux.New(ns, r.option(pidx, p, "h1"))
+						first = append(first, r.option(pidx, p, "h1"))
+					}
+					if (regs+regs/4)%2 == 0 {
+						m = construct("zero", ns, first)
 					} else {
-						m = mux.New(ns)
+						m = construct("new", ns, first)
 					}
 				}()
 				if setup != "" {
@@ -648,5 +816,6 @@ func muxMain(args []string) {
 		})
 	}
 	summary(map[string]interface{}{"evaluations": evals, "registration_cases": regs, "mismatches": mism,
+		"nested_evaluations": nested, "nested_entered": enteredN, "stalls": stalls, "constructions": ctorUsed,
 		"nontrivial": nontrivial, "distinct_observations": len(distinct), "samples": samples})
 }
